@@ -116,27 +116,36 @@ structure MState where
   rmapping : Iso.Dict
   deriving Repr, DecidableEq, Inhabited
 
+/-- what one iteration of the `while stack:` loop does after `n, depth = stack.pop()` -/
+inductive Step
+  | yield (d : Iso.Dict)          -- `yield {**mapping, current: n}`; the local variables are unchanged
+  | next (ms : MState)            -- the new local variables (candidates pushed)
+  deriving Repr, DecidableEq, Inhabited
+
+/-- one iteration of the `while stack:` loop for the popped `(n, depth)`; `none` = crash. Built from the same pieces as one
+    iteration of `Iso.runLoop` (C07: `Iso.stepDown`) — `Proofs/C14Lazy.lean: runLoop_step`. -/
+def step (e : Iso.Env) (size n depth : Nat) (stack : List (Nat × Nat)) (path : List Nat) (mapping rmapping : Iso.Dict) :
+    Option Step :=
+  match e.lq[depth]? with
+  | none => none
+  | some cur =>
+    if depth == size then some (.yield (mapping.set cur.front n))
+    else
+      match Iso.stepDown e depth n cur.front path mapping rmapping with
+      | none => none
+      | some (path, mapping, rmapping, cands) =>
+        some (.next ⟨cands.reverse.map (·, depth + 1) ++ stack, path, mapping, rmapping⟩)
+
 /-- run the `while stack:` loop until the next `yield`: `some (some (mapping, state'))`; `some none` = the generator is
-    exhausted; `none` = crash / out of fuel.  Same transitions as `Iso.runLoop` (C07), stopped at the yield. -/
+    exhausted; `none` = crash / out of fuel. -/
 def resume (e : Iso.Env) (size : Nat) : Nat → MState → Option (Option (Iso.Dict × MState))
   | 0, _ => none
   | _+1, ⟨[], _, _, _⟩ => some none
-  | fuel+1, ⟨(n, depth) :: stack, path, mapping, rmapping⟩ => do
-    let cur ← e.lq[depth]?
-    let current := cur.front
-    if depth == size then
-      pure (some (mapping.set current n, ⟨stack, path, mapping, rmapping⟩))
-    else
-      let (mapping, rmapping) ←
-        if path.length != depth then Iso.truncate (path.drop depth) mapping rmapping else some (mapping, rmapping)
-      let path := path.take depth ++ [n]
-      let mapping := mapping.set current n
-      let rmapping := rmapping.set n current
-      let nxt ← e.lq[depth + 1]?
-      let back ← nxt.back
-      let n' ← if back != current then (do let i ← Iso.orderDepth e.lq back; path[i]?) else some n
-      let cands ← Iso.candidates e nxt.front back n' mapping rmapping (e.t.nbrs n')
-      resume e size fuel ⟨cands.reverse.map (·, depth + 1) ++ stack, path, mapping, rmapping⟩
+  | fuel+1, ⟨(n, depth) :: stack, path, mapping, rmapping⟩ =>
+    match step e size n depth stack path mapping rmapping with
+    | none => none
+    | some (.yield d) => some (some (d, ⟨stack, path, mapping, rmapping⟩))
+    | some (.next ms) => resume e size fuel ms
 
 /-! ## one rule -/
 
